@@ -137,8 +137,11 @@ func callerMutation(rc *RC, f ingest.Feature) string {
 		if n == 0 {
 			return ""
 		}
-		i := rc.Draw(n)
+		i := rc.Draw(n + 1) // i == n extends the path by one point
 		f.ModifyOrAddTagAt(b6.Tag{Key: b6.PathTag, Value: b6.NewFeatureIDExpression(pointID(rc.Draw(maxPoints)))}, i)
+		if i == n {
+			return fmt.Sprintf("ModifyOrAddTagAt(path, %d) (extends the path)", i)
+		}
 		return fmt.Sprintf("ModifyOrAddTagAt(path, %d)", i)
 	case "movepoint":
 		f.ModifyOrAddTag(b6.Tag{Key: b6.PointTag, Value: b6.NewPointExpressionFromLatLng(s2.LatLngFromDegrees(51.5401, -0.1201))})
@@ -276,6 +279,18 @@ func runC38(rc *RC) {
 				rc.Fail(name+"/world-changed-by-caller:"+section(d[0]), "the caller mutated %s (%s) after handing it to the world, and the world now answers differently:\n%s", kv.label, what, wbefore.DiffString(wafter, "before", "after "))
 				return
 			}
+			continue
+		}
+		if len(kept) > 0 && rc.Pct(20) {
+			// the caller hands one of its (possibly edited) values to the world
+			// again: an ordinary workflow; the world may refuse it
+			kv := kept[rc.Draw(len(kept))]
+			var err error
+			if !rc.Guard(name+"/panic", func() { err = w.AddFeature(kv.f) }) {
+				return
+			}
+			rc.Case("re-add", kv.label)
+			rc.Notef("#%d caller passes %s to AddFeature again -> %v", i, kv.label, err)
 			continue
 		}
 		o := g.genValidAdd(mix)
